@@ -502,4 +502,47 @@ theorem resampledAtas_identity' {s : List Cell} {fields : List String} {A : Fact
     · cases ht; rfl
     · intro fa hfa; rw [key fa hfa, gatherE_range]
 
+/-! ### the weights handed to `rng.choice` form a probability vector -/
+
+theorem sumQ_map_div (x : List Rat) (S : Rat) : sumQ (x.map fun v => v / S) = sumQ x / S := by
+  induction x with
+  | nil => simp [sumQ]
+  | cons a x ih =>
+    simp only [sumQ, List.map_cons, List.foldr_cons] at ih ⊢
+    rw [ih]; ring
+
+theorem sumQ_map_const (x : List Rat) (c : Rat) : sumQ (x.map fun _ => c) = (x.length : Rat) * c := by
+  induction x with
+  | nil => simp [sumQ]
+  | cons a x ih =>
+    simp only [sumQ, List.map_cons, List.foldr_cons, List.length_cons] at ih ⊢
+    rw [ih]; push_cast; ring
+
+theorem normalizeW_spec {x p : List Rat} (h : normalizeW x = .ok p) :
+    p.length = x.length ∧ sumQ p = 1 ∧ ((∀ v ∈ x, 0 ≤ v) → ∀ v ∈ p, 0 ≤ v) := by
+  unfold normalizeW at h
+  split at h
+  · split at h
+    · cases h
+    · rename_i hne
+      cases h
+      have hpos : (0 : Rat) < x.length := by
+        cases x with
+        | nil => simp at hne
+        | cons _ _ => simp; positivity
+      refine ⟨by simp, ?_, ?_⟩
+      · rw [sumQ_map_const]; field_simp
+      · intro _ v hv
+        obtain ⟨_, _, rfl⟩ := List.mem_map.mp hv
+        positivity
+  · rename_i hS
+    cases h
+    have hS' : sumQ x ≠ 0 := by simpa using hS
+    refine ⟨by simp, ?_, ?_⟩
+    · rw [sumQ_map_div]; field_simp
+    · intro hx v hv
+      obtain ⟨w, hw, rfl⟩ := List.mem_map.mp hv
+      have hs := sumQ_nonneg x hx
+      exact div_nonneg (hx w hw) hs
+
 end Bermuda.Resample
